@@ -58,24 +58,39 @@ def make_exp(family, params, spot=100.0, r=0.02, d=0.0):
 
 
 def reinitialised(model, family, params):
-    """The same model rebuilt the way calibration rebuilds it (model/utils.py: deepcopy of the parameter object, an
-    attribute assignment, `initialisation()`, then `type(model)(..., parameters=obj)`): one primary parameter is moved to
-    another legal value and back, with `initialisation()` after each assignment.  The result must be indistinguishable
-    from the freshly constructed model; checks use it as a second 'history' of every model they examine."""
+    """The same model reached through another construction history, the way calibration reaches it (model/utils.py: deepcopy
+    of the parameter object, attribute assignments, `initialisation()`, then `type(model)(..., parameters=obj)`): the
+    parameter object is CONSTRUCTED with other legal values (so that anything computed once in `__init__` holds those), every
+    primary parameter is then assigned its target value one at a time with `initialisation()` after each assignment, and the
+    model is rebuilt from that object.  The result must be indistinguishable from the model constructed directly with the
+    target values; checks use it as a second 'history' of every model they examine."""
     import copy
+    import random as _random
     from rpylib.model.levymodel.exponentialoflevymodel import ExponentialOfLevyModel
     lm = model.levy_model if isinstance(model, ExponentialOfLevyModel) else model
     if not hasattr(lm, "parameters"):        # Black-Scholes keeps no parameter object on its Lévy model
         return model
-    p = copy.deepcopy(lm.parameters)
-    drawn = draw_params(__import__("random").Random(0), family) if family != "bs" else {"sigma": 0.2}
-    name = sorted(drawn)[len(params) % len(drawn)]
-    original = getattr(p, name)
-    other = drawn[name] if drawn[name] != original else drawn[name] * 1.5
-    setattr(p, name, other)
-    p.initialisation()
-    setattr(p, name, original)
-    p.initialisation()
+    if family == "bs":
+        names, other_kw = ["sigma"], {"sigma": 0.2 if getattr(lm.parameters, "sigma", None) != 0.2 else 0.3}
+    else:
+        y_branch = None
+        if family == "cgmy":            # stay in the same activity branch: the constructor may fix things per branch
+            y = float(lm.parameters.y)
+            y_branch = 0.0 if y == 0.0 else 1.0 if y == 1.0 else -0.5 if y < 0 else 0.5 if y < 1 else 1.5
+        other_kw = draw_params(_random.Random(len(params) + 1), family, y_branch)
+        names = sorted(other_kw)
+    target = {n: getattr(lm.parameters, n) for n in names}
+    for n in names:                          # the other history must really start elsewhere
+        if other_kw[n] == target[n] and n != "y":
+            other_kw[n] = other_kw[n] * 1.5 if other_kw[n] else 0.1
+    try:
+        other = create_levy_model(_TYPES[family])(**other_kw)
+        p = copy.deepcopy(other.parameters)
+    except Exception:                        # a constraint of the family refused the other values: start from a copy
+        p = copy.deepcopy(lm.parameters)
+    for n in names:
+        setattr(p, n, target[n])
+        p.initialisation()
     if isinstance(model, ExponentialOfLevyModel):
         return type(model)(spot=model.spot, r=model.r, d=model.d, parameters=p)
     return type(model)(parameters=p)
